@@ -171,6 +171,20 @@ pub fn full_text(base: &str, lines: &[Line]) -> String {
     t
 }
 
+thread_local! {
+    static LAST_PANIC: std::cell::RefCell<String> = const { std::cell::RefCell::new(String::new()) };
+}
+
+/// panic hook: remember where the last panic of this thread happened (nothing is printed)
+pub fn note_panic_location(info: &std::panic::PanicHookInfo<'_>) {
+    let loc = info.location().map(|l| format!("{}:{}", l.file().rsplit("/src/").next().unwrap_or(l.file()), l.line())).unwrap_or_default();
+    LAST_PANIC.with(|p| *p.borrow_mut() = loc);
+}
+
+pub fn last_panic_location() -> String {
+    LAST_PANIC.with(|p| p.borrow().clone())
+}
+
 fn panic_msg(e: Box<dyn std::any::Any + Send>) -> String {
     if let Some(s) = e.downcast_ref::<&str>() {
         s.to_string()
